@@ -411,6 +411,12 @@ def run_item(item) -> Acc:
                     remove(root)
                     return None if r["violations"] is None else sorted((v["line"], v["message"]) for v in r["violations"])
                 ref = rawr({"allowed_numbers": [0], "max_small_integer": msi})
+                # a python block that does not mention max_small_integer: the top-level value applies
+                got0 = rawr({"allowed_numbers": [0], "max_small_integer": msi, "python": {"allowed_numbers": [0]}})
+                acc.case()
+                acc.edge()
+                if got0 != ref:
+                    acc.fail({"check": "language-section", "lang": "py", "mode": "top-level-max_small_integer-lost-when-a-block-exists"}, {"lang": "py", "text": rtext, "section": {"allowed_numbers": [0], "max_small_integer": msi, "python": {"allowed_numbers": [0]}}}, ref, got0)
                 for top in (1, 20):
                     got = rawr({"allowed_numbers": [0], "max_small_integer": top, "python": {"max_small_integer": msi}})
                     acc.case(2)
